@@ -57,6 +57,9 @@ type G struct {
 	MaxDepth int
 	// Awkward raises the share of nulls, empty names and odd spellings.
 	Awkward bool
+	// NoHuge suppresses the rare depth-2000+ documents (concurrent engine: each
+	// scenario is executed many times, also under the race detector).
+	NoHuge bool
 }
 
 func New(r *R) *G { return &G{R: r, MaxDepth: 4} }
@@ -204,7 +207,7 @@ func (g *G) Doc() string {
 		return g.ws() + g.Scalar() + g.ws()
 	case g.R.P(8):
 		return g.Deep(50 + g.R.Intn(400))
-	case g.R.P(2):
+	case g.R.P(2) && !g.NoHuge:
 		return g.Deep(2000 + g.R.Intn(1000))
 	case g.R.P(550):
 		return g.ws() + g.Object(d) + g.ws()
